@@ -285,6 +285,16 @@ class Scaling(Interp):
         b = self.eval(node.right, env)
         return self.binop(node.op, a, b, node)
 
+    def eval_IfExp(self, node, env):
+        d = self.decide(node.test, env)
+        if d is None:
+            a = self.eval(node.body, env)
+            b = self.eval(node.orelse, env)
+            if isinstance(a, SV) and isinstance(b, SV) and a.kind == b.kind and a.kind in ("sig", "sigabs", "sigpow", "det", "rnd") and a.m is not None and b.m is not None and a.m != b.m:
+                self.definite.append(f"`{unparse(node)[:80]}` takes a quantity that scales as {a.m.show()} or as {b.m.show()} depending on a run-time condition: the configured law cannot hold on both alternatives")
+                return a
+        return super().eval_IfExp(node, env)
+
     def binop(self, op, a: SV, b: SV, node) -> SV:
         if not isinstance(a, SV) or not isinstance(b, SV):
             return unk("non-value")
